@@ -522,7 +522,11 @@ class LambdaExpression(Expression):
                 expr,
             )
 
-        assert token.type_ == TokenType.LPAREN
+        if token.type_ != TokenType.LPAREN:
+            raise LiquidSyntaxError(
+                f"expected an arrow function, found {token.type_.name}", token=token
+            )
+
         params: list[Identifier] = []
 
         while stream.current().type_ != TokenType.RPAREN:
@@ -900,7 +904,7 @@ class Filter:
         try:
             return func(left, *positional_args, **keyword_args)
         except (TypeError, ValueError, ArithmeticError, LookupError) as err:
-            raise LiquidTypeError(str(err), token=self.token) from err
+            raise LiquidTypeError(_str(err), token=self.token) from err
         except LiquidTypeError as err:
             err.token = self.token
             raise err
@@ -912,7 +916,9 @@ class Filter:
         try:
             return func(left, *positional_args, **keyword_args)
         except (TypeError, ValueError, ArithmeticError, LookupError) as err:
-            raise LiquidTypeError(f"{self.name}: {err}", token=self.token) from err
+            raise LiquidTypeError(
+                f"{self.name}: {_str(err)}", token=self.token
+            ) from err
         except LiquidTypeError as err:
             err.token = self.token
             raise err
